@@ -143,6 +143,13 @@ def run(chk, repo, tier):
                 flat = nf.subst_value(num, {b: b[2][0] for b in nf.value_atoms(num) if is_app(b, 'int') and isinstance(b[2][0], Poly)})
                 if flat != want:
                     okg, detg = False, f'linspace(..., num={fmt(num)[:120]}); expected ceil(span/step) + 1'
+                # ... of floating-point wavelengths: a grid forced into the element type of an operand (dtype=s1.wave.dtype)
+                # truncates every point for an integer-valued grid
+                kw_ = e.data.get('kwargs') or {}
+                if kw_.get('dtype') is not None and kw_.get('dtype') != NONE:
+                    dk = kw_['dtype']
+                    if not (isinstance(dk, Const) and 'float' in repr(dk.value)):
+                        okg, detg = False, f'the common grid is created with dtype={fmt(dk)[:50]}: with integer wavelengths its points are truncated'
     if not ng:
         # no linspace: a grid stepped with np.arange(min, max (+ slack), step) ends where the float steps happen to end - it
         # covers the union exactly only when the span is a multiple of the step
@@ -298,6 +305,9 @@ def run(chk, repo, tier):
     # the operands are left as they were: what is converted for a mixed-unit operation is a deep copy, converted by rebinding
     from .c15 import spectrum_storage_rules
     spectrum_storage_rules(chk, repo, 'C13-f')
+    # each operand is sampled through its own class: a Blackbody orders the positional options of sample() differently
+    from .c15 import sample_keyword_rule as _sample_keyword_rule
+    _sample_keyword_rule(chk, repo, 'C13-f')
     # the second operand of a mixed-unit operation is converted with Spectrum.to: every value unit is rescaled with its grid
     from . import c14 as _c14
     from .common import Remap as _Remap13
